@@ -18,6 +18,7 @@ import OFV.Proofs.C02PauliHerm
 import OFV.Proofs.C02MajComm
 import OFV.Proofs.C02HermIO
 import OFV.Proofs.C02Matrix
+import OFV.Proofs.C02HermBoson
 
 namespace OFV.C02
 open OFV OFV.Model OFV.Model.C02 OFV.Proofs.C02
@@ -400,6 +401,69 @@ theorem is_hermitian_fermion_iff_tol (D : Nat) (hD : 0 < D) (tol : Rat) (ht : 0 
       ← Proofs.C03.normal_ordered_exact_regime_aux D hD tol (le_of_lt ht) h1 (hcFermion a) lh]
     exact hexact t (h t)
   · exact is_hermitian_fermion_complete D hD tol ht h1 a wa hv la
+
+/-! ## `is_hermitian(BosonOperator)`
+
+The polynomial representation of the Spec (`b† ↦ x·`, `b ↦ ∂`) carries no inner product, so the
+statement decided is "the operator and its formal adjoint `hermitian_conjugated(A)` (terms reversed,
+actions flipped, coefficients conjugated, re-sorted by index) denote the same operator". -/
+
+/-- `hermitian_conjugated(BosonOperator)` stores only valid action codes and stays on the
+coefficient lattice of its argument. -/
+theorem hermitian_conjugated_boson_wellformed (D : Nat) (a : Op) (hv : ∀ e ∈ a, ∀ f ∈ e.1, f.2 < 2)
+    (la : ∀ e ∈ a, Proofs.C03.Lat D e.2) :
+    (∀ e ∈ hcBoson a, ∀ f ∈ e.1, f.2 < 2) ∧ (∀ e ∈ hcBoson a, Proofs.C03.Lat D e.2) :=
+  ⟨Proofs.C02.hcBoson_valid a hv, Proofs.C02.hcBoson_lat D a la⟩
+
+/-- **`is_hermitian(BosonOperator)`, tolerance 0 form**: `A` and `hermitian_conjugated(A)` have the
+same Spec coefficients `⟨x^out| · |x^s⟩` on all canonical exponent vectors IF AND ONLY IF the two
+normal-ordered dictionaries `is_hermitian` compares have equal coefficients. -/
+theorem is_hermitian_boson_iff (a : Op) (hv : ∀ e ∈ a, ∀ f ∈ e.1, f.2 < 2) :
+    (∀ s out, Proofs.C03.Trimmed s → Proofs.C03.Trimmed out →
+      Spec.GV.coeff (Spec.applyOp .boson a s) out = Spec.GV.coeff (Spec.applyOp .boson (hcBoson a) s) out) ↔
+      ∀ t, Dict.getD (C03.normalOrdered 0 .boson a) t 0 =
+        Dict.getD (C03.normalOrdered 0 .boson (hcBoson a)) t 0 :=
+  Proofs.C03.canonicity_boson_iff a (hcBoson a) hv (Proofs.C02.hcBoson_valid a hv)
+
+/-- completeness of the executed test in the exact regime (lattice inputs, `0 < tol`, `tol·D ≤ 1`). -/
+theorem is_hermitian_boson_complete (D : Nat) (hD : 0 < D) (tol : Rat) (ht : 0 < tol) (h1 : tol * D ≤ 1)
+    (a : Op) (hv : ∀ e ∈ a, ∀ f ∈ e.1, f.2 < 2) (la : ∀ e ∈ a, Proofs.C03.Lat D e.2)
+    (hh : ∀ s out, Proofs.C03.Trimmed s → Proofs.C03.Trimmed out →
+      Spec.GV.coeff (Spec.applyOp .boson a s) out = Spec.GV.coeff (Spec.applyOp .boson (hcBoson a) s) out) :
+    isHermitianBoson tol a = true := by
+  unfold isHermitianBoson
+  apply isclose_of_coefficients_equal tol ht
+  intro t
+  rw [Proofs.C02.normal_ordered_exact_regime_boson D hD tol (le_of_lt ht) h1 a la,
+    Proofs.C02.normal_ordered_exact_regime_boson D hD tol (le_of_lt ht) h1 (hcBoson a)
+      (Proofs.C02.hcBoson_lat D a la)]
+  exact (is_hermitian_boson_iff a hv).1 hh t
+
+/-- **`is_hermitian(BosonOperator)` (executed function, real tolerance)**: on lattice inputs, under
+the decidable exact-regime hypothesis that coefficients which `==` calls close are equal, the coded
+test is True IF AND ONLY IF the operator and its formal adjoint denote the same Spec operator. -/
+theorem is_hermitian_boson_iff_tol (D : Nat) (hD : 0 < D) (tol : Rat) (ht : 0 < tol) (h1 : tol * D ≤ 1)
+    (a : Op) (hv : ∀ e ∈ a, ∀ f ∈ e.1, f.2 < 2) (la : ∀ e ∈ a, Proofs.C03.Lat D e.2)
+    (hexact : ∀ t, Spec.C02.coefClose tol
+        (Dict.get? (C03.normalOrdered tol .boson a) t)
+        (Dict.get? (C03.normalOrdered tol .boson (hcBoson a)) t) = true →
+      Dict.getD (C03.normalOrdered tol .boson a) t 0 =
+        Dict.getD (C03.normalOrdered tol .boson (hcBoson a)) t 0) :
+    isHermitianBoson tol a = true ↔
+      ∀ s out, Proofs.C03.Trimmed s → Proofs.C03.Trimmed out →
+        Spec.GV.coeff (Spec.applyOp .boson a s) out =
+          Spec.GV.coeff (Spec.applyOp .boson (hcBoson a) s) out := by
+  constructor
+  · intro h
+    unfold isHermitianBoson at h
+    rw [isclose_iff_spec] at h
+    apply (is_hermitian_boson_iff a hv).2
+    intro t
+    rw [← Proofs.C02.normal_ordered_exact_regime_boson D hD tol (le_of_lt ht) h1 a la,
+      ← Proofs.C02.normal_ordered_exact_regime_boson D hD tol (le_of_lt ht) h1 (hcBoson a)
+        (Proofs.C02.hcBoson_lat D a la)]
+    exact hexact t (h t)
+  · exact is_hermitian_boson_complete D hD tol ht h1 a hv la
 
 /-! ## `is_hermitian(QubitOperator)` — Pauli strings are Hermitian and linearly independent -/
 
